@@ -380,9 +380,15 @@ void make_items(const Options& o, std::vector<Item>& items)
         // quick: at least one thread starts with an add so that the map is not trivially empty
         bool starts_add = p.threads[0][0].k <= ADDT || p.threads[1][0].k <= ADDT;
         if (!starts_add) return;
-        if (!thorough && p.threads[0].size() + p.threads[1].size() == 4 &&
-            !(p.threads[0][0].k <= ADDT && p.threads[1][0].k <= ADDT))
-            return;
+        if (!thorough && p.threads[0].size() + p.threads[1].size() == 4) {
+            // quick: one client stores then does something, the other mutates twice
+            bool a0 = p.threads[0][0].k <= ADDT, a1 = p.threads[1][0].k <= ADDT;
+            int muts = 0;
+            for (auto& t : p.threads)
+                for (auto& o2 : t)
+                    if (o2.k <= RMPRED) muts++;
+            if (!(a0 && a1) && muts < 4) return;
+        }
         add(p, 2, 3);
     });
     hx::multisets((int)seq1.size(), 3, [&](const std::vector<int>& idx) {
